@@ -29,13 +29,13 @@ type Mut struct {
 }
 
 type MsgSpec struct {
-	T        string `json:"t"`                // proposal prepare commit rc
-	Signer   int    `json:"signer"`           // 0 = round-robin leader of the message's round, else operator id
-	RoundRel int    `json:"round_rel"`        // message round = current round of the reference instance + RoundRel
-	Value    string `json:"value,omitempty"`  // A B X(invalid) acc(accepted proposal's) auto(highest prepared in justification, else A)
-	Just     string `json:"just,omitempty"`   // proposal: auto none short
+	T        string `json:"t"`                  // proposal prepare commit rc
+	Signer   int    `json:"signer"`             // 0 = round-robin leader of the message's round, else operator id
+	RoundRel int    `json:"round_rel"`          // message round = current round of the reference instance + RoundRel
+	Value    string `json:"value,omitempty"`    // A B X(invalid) acc(accepted proposal's) auto(highest prepared in justification, else A)
+	Just     string `json:"just,omitempty"`     // proposal: auto none short
 	Prepared string `json:"prepared,omitempty"` // rc: none | pool (highest prepare quorum in pool) | force
-	PRound   int    `json:"pround,omitempty"` // rc force: prepared round
+	PRound   int    `json:"pround,omitempty"`   // rc force: prepared round
 	Muts     []Mut  `json:"muts,omitempty"`
 }
 
@@ -518,6 +518,11 @@ func run(p Prog) *prog.Result {
 				steps = append(steps, Step{Kind: "msg", Msg: &c})
 			}
 			classes["burst"] = true
+		} else if st.Kind == "timeouts" { // a run of consecutive timeouts (reaches the round cut-off)
+			for j := 0; j < st.Burst; j++ {
+				steps = append(steps, Step{Kind: "timeout"})
+			}
+			classes["timeout-run"] = true
 		} else if st.Kind == "flow" {
 			steps = append(steps, Step{Kind: "msg", Msg: &MsgSpec{T: "proposal", Value: "auto", Just: "auto"}})
 			for j := 0; j < st.P; j++ {
@@ -606,6 +611,9 @@ func run(p Prog) *prog.Result {
 	if maxRound >= 3 {
 		classes["round>=3"] = true
 	}
+	if maxRound >= 14 {
+		classes["round>=14 (cut-off region)"] = true
+	}
 	if w.spec.State.LastPreparedRound != 0 {
 		classes["prepared"] = true
 	}
@@ -653,7 +661,10 @@ func genMut(t *rapid.T) Mut {
 
 func genStep(n int) func(t *rapid.T) Step {
 	return func(t *rapid.T) Step {
-		kind := rapid.SampledFrom([]string{"msg", "msg", "msg", "msg", "msg", "msg", "flow", "timeout"}).Draw(t, "kind")
+		kind := rapid.SampledFrom([]string{"msg", "msg", "msg", "msg", "msg", "msg", "msg", "msg", "msg", "msg", "msg", "msg", "flow", "flow", "timeout", "timeout", "timeouts"}).Draw(t, "kind")
+		if kind == "timeouts" {
+			return Step{Kind: "timeouts", Burst: rapid.IntRange(3, 16).Draw(t, "ntimeouts")}
+		}
 		if kind == "timeout" {
 			return Step{Kind: "timeout"}
 		}
